@@ -39,12 +39,21 @@ pub fn write_replay(id: &str, v: &Violation, case: &Value) -> String {
 
 pub fn write_evidence(cfg: &RunCfg, rep: &Report, findings: &Findings, wall_s: f64) {
   let st = &rep.stats;
+  // samples: non-trivial ones first; very large cases (crowds, wide layouts, long bursts) are
+  // left out of the file as long as smaller ones exist, otherwise shown as a text prefix
   let mut samples: Vec<Value> = Vec::new();
-  for s in st.nontrivial_samples.iter().take(4) {
+  let small = |v: &Value| v.to_string().len() <= 4000;
+  for s in st.nontrivial_samples.iter().filter(|v| small(v)).take(4) {
     samples.push(s.clone());
   }
-  for s in st.samples.iter().take(3) {
+  for s in st.samples.iter().filter(|v| small(v)).take(3) {
     samples.push(s.clone());
+  }
+  if samples.is_empty() {
+    if let Some(v) = st.nontrivial_samples.iter().chain(st.samples.iter()).min_by_key(|v| v.to_string().len()) {
+      let t = v.to_string();
+      samples.push(json!({"truncated_case": t.chars().take(3000).collect::<String>(), "full_length": t.len()}));
+    }
   }
   let mut coverage = Map::new();
   coverage.insert("evaluations".into(), json!(st.evaluations));
